@@ -267,6 +267,30 @@ def t_regex():
     return stats
 
 
+def t_numbers():
+    """every RFC 9535 spelling of a number literal denotes its value (exponent in either case and sign, fraction, -0)"""
+    stats = Stats()
+    spellings = ["0", "-0", "1", "-1", "10", "1e1", "1E1", "1e+1", "1E+1", "100e-1", "100E-1", "5e-1", "5E-1", "25E-1", "25e-1", "-5E-1", "0.5", "0.50",
+                 "5.0e-1", "5.0E-1", "0.05e1", "0.05E+1", "1.5", "15e-1", "15E-1", "1.5e0", "1.5E0", "150e-2", "0e0", "0E-5", "-0.0", "0.0", "1e0", "1E0",
+                 "12e1", "120", "1.2e2", "1.2E+2", "1e-2", "1E-2", "0.01", "2.5e-3", "25E-4", "1e21", "1E21", "9007199254740991", "1e2", "100"]
+    n = 0
+    pool = sorted({float(x) for x in spellings} | {0.25, 2.0, 3.0})
+    doc = [int(v) if v == int(v) and abs(v) < 2**53 else v for v in pool] + [0.5, 1.5, 0.01, "5E-1", None, True]
+    for sp in spellings:
+        val = float(sp)
+        lit = int(val) if (val == int(val) and abs(val) < 2**53) else val
+        for op in ("==", "!=", "<", "<=", ">", ">="):
+            for flip in (False, True):
+                e = ["cmp", op, ["lit", lit], ["q", "@", []]] if flip else ["cmp", op, ["q", "@", []], ["lit", lit]]
+                ast = ["q", "$", [["c", [["f", e]]]]]
+                text = ("$[?%s %s @]" % (sp, op)) if flip else ("$[?@ %s %s]" % (op, sp))
+                judge(stats, ast, doc, text, "numbers")
+                n += 1
+        stats.nt("number", sp)
+    stats.subspaces.append({"name": "%d spellings of number literals x 6 operators x both operand orders" % len(spellings), "size": n, "exhaustive": True})
+    return stats
+
+
 def t_nesting():
     """`$` is the query argument and `@` the candidate at every nesting depth."""
     stats = Stats()
@@ -305,6 +329,7 @@ def tasks(tier, seed):
     ts.append({"name": "existence", "fn": "t_existence"})
     ts.append({"name": "nesting", "fn": "t_nesting"})
     ts.append({"name": "regex", "fn": "t_regex"})
+    ts.append({"name": "numbers", "fn": "t_numbers"})
     n = 1500 if tier == "quick" else 25000
     depth = 3 if tier == "quick" else 4
     for k in range(16):
